@@ -7,7 +7,7 @@
    The model describes the code WITH repo_patches/C10-fix.patch. *)
 From Coq Require Import ZArith NArith List Bool Sorted Lia.
 Import ListNotations.
-From Verif Require Import Lib.Corr Lib.Storegw_Str Gen.C10 Model.C10 Proofs.C10 Proofs.C10_merge Proofs.C10_select Proofs.C10_part Proofs.C10_lazy.
+From Verif Require Import Lib.Corr Lib.Storegw_Str Gen.C10 Model.C10 Proofs.C10 Proofs.C10_merge Proofs.C10_select Proofs.C10_part Proofs.C10_lazy Proofs.C10_cache.
 Open Scope Z_scope.
 
 (* Time filter: for every series whose chunks are ordered by start time (the TSDB index
@@ -101,13 +101,31 @@ Theorem C10_answer_eq_spec : forall idx ext ms mint maxt,
 Proof. exact answer_eq_spec. Qed.
 Print Assumptions C10_answer_eq_spec.
 
-(* Connection with the check. *)
-Theorem C10_case_pred : forall idx ext ms mint maxt k,
+(* Expanded-postings cache over histories. The cache key is the matcher list only; if every
+   entry is the value a cold store computes for its key (true of the empty cache, preserved
+   by every query) then for EVERY history of queries - any matchers, any time ranges, in any
+   order - every answer is the cold answer for ITS OWN range: finish (cold ms) mint maxt.
+   [cold] may be the eager selection or the lazy one (C10_lazy_select_eq); what matters is
+   that the cached value does not depend on the time range of the query that wrote it. *)
+Theorem C10_cache_transparent : forall cold ext, key_respect cold ->
+  forall h c, cache_inv cold c ->
+  run_hist cold ext c h = map (fun q => finish ext (cold (q_ms q)) (q_mint q) (q_maxt q)) h.
+Proof. exact cache_transparent. Qed.
+Print Assumptions C10_cache_transparent.
+
+(* One step: the answer and the preservation of the invariant. *)
+Theorem C10_cache_step : forall cold ext c q, cache_inv cold c -> key_respect cold ->
+  fst (query_step cold ext c q) = finish ext (cold (q_ms q)) (q_mint q) (q_maxt q)
+  /\ cache_inv cold (snd (query_step cold ext c q)).
+Proof. exact query_step_ok. Qed.
+Print Assumptions C10_cache_step.
+
+(* Connection with the check: histories with one matcher list, every store starting cold. *)
+Theorem C10_case_pred : forall idx ext ms (hists : list (list (Z * Z))),
   ms <> [] -> Forall coherent ms -> consistent ms -> wf_index idx -> chunks_sorted idx ->
-  let a := answer idx ext true ms mint maxt in
-  a = spec_answer idx ext ms mint maxt
-  /\ corr_ok (CSel idx ext true ms mint maxt (repeat a k) (spec_answer idx ext ms mint maxt)) = true
-  /\ pred_ok (CSel idx ext true ms mint maxt (repeat a k) (spec_answer idx ext ms mint maxt)) = true.
+  let spec := fun mint maxt => spec_answer idx ext ms mint maxt in
+  corr_ok (CSel idx ext true ms (map (mk_hist spec) hists) (mk_hist spec (concat hists))) = true
+  /\ pred_ok (CSel idx ext true ms (map (mk_hist spec) hists) (mk_hist spec (concat hists))) = true.
 Proof. exact case_ok. Qed.
 Print Assumptions C10_case_pred.
 
@@ -171,3 +189,12 @@ Example C10_lazy_nonvacuous :
   select_with ex_idx [ex_m1; ex_m3] (fun n => str_eqb n (s_ "b")) = select ex_idx [ex_m1; ex_m3]
   /\ select_with ex_idx [ex_m1; ex_m3] (fun n => str_eqb n (s_ "b")) = [nth 0 ex_idx ([], [])].
 Proof. split; vm_compute; reflexivity. Qed.
+
+(* a narrow query (only the first series has a chunk there) followed by a wide one with the
+   same matchers: the second answer still contains every selected series *)
+Example C10_cache_nonvacuous :
+  run_hist (select ex_idx) [] [] [([ex_m3], 0, 10); ([ex_m3], 0, 1000); ([ex_m3], 0, 10)]
+  = [finish [] (select ex_idx [ex_m3]) 0 10; finish [] (select ex_idx [ex_m3]) 0 1000; finish [] (select ex_idx [ex_m3]) 0 10]
+  /\ List.length (finish [] (select ex_idx [ex_m3]) 0 10) = 1%nat
+  /\ List.length (finish [] (select ex_idx [ex_m3]) 0 1000) = 2%nat.
+Proof. split; [vm_compute; reflexivity|]. split; vm_compute; reflexivity. Qed.
